@@ -5,8 +5,8 @@ import SignaloModel.Proofs.BridgeMedian
 /-!
 # C02 — Moving median returns the lower median of the last min(k,N) samples
 
-Property theorems for C02 (statements are printed by `#check`, axioms by `#print axioms`;
-`bin/check C02` re-elaborates this file on every run and audits the axiom lists).
+The property theorems for C02: `#check` prints each statement, `#print axioms` its axioms;
+`bin/check C02` re-elaborates this file on every run and audits the axiom lists.
 -/
 open SignaloModel
 
